@@ -63,6 +63,8 @@ def main(ctx, replay=None):
     by = {}
     for s, S, det in table:
         by.setdefault((s, det), []).append(S)
+    for k in by:                                          # (TLC's dump order depends on its worker threads: the sample must not)
+        by[k].sort(key=lambda S: (len(S), tuple(sorted(S))))
     n_each = 6 if ctx.tier == "quick" else 120
     tmp = Path(tempfile.mkdtemp(prefix="cijverif.c09."))
     try:
@@ -86,6 +88,8 @@ def main(ctx, replay=None):
                     run_case(ctx, rng, pandas, s, S, det, tensors, nonvan, e, relrows, outcome, tmp)
         ctx.sample({"outcome_table_rows": 16, "lattice_states": len(table)})
         clause_cases(ctx, rng, pandas, exports, by, outcome)
+        settings_cases(ctx, rng, exports, by, outcome)
+        label_cases(ctx, rng, pandas, exports, by)
         cli_cases(ctx, rng, exports, by, tmp)
     finally:
         shutil.rmtree(tmp, ignore_errors=True)
@@ -114,7 +118,8 @@ def build_table(pandas, rng, S, rows, extra_bad=None, upper=False, ints=False, e
 
 
 def run_case(ctx, rng, pandas, s, S, det, tensors, nonvan, e, relrows, outcome, tmp):
-    nrows = int(rng.integers(1, 4))
+    env = str(rng.choice(["plain", "upper", "ints", "mixed_ints", "extras", "cwd_dir", "relfile", "relfile_dot", "row_labels"]))
+    nrows = 3 if env == "row_labels" else int(rng.integers(1, 4))
     rows = [tensors[r] for r in rng.permutation(3)[:nrows]]
     gross = bool(det and rng.random() < 0.4 and len(set(range(1, 22)) - set(S)) > 0)
     extra_bad = None
@@ -124,7 +129,6 @@ def run_case(ctx, rng, pandas, s, S, det, tensors, nonvan, e, relrows, outcome, 
     ign_rank, ign_res = bool(rng.random() < 0.35), bool(rng.random() < 0.35)
     if not det and gross:
         return
-    env = str(rng.choice(["plain", "upper", "ints", "mixed_ints", "extras", "cwd_dir", "relfile", "relfile_dot"]))
     first_int = None
     if env == "mixed_ints":
         # the FIRST modulus column is integer-typed, the others are floats with fractions: every row is rescaled so that one supplied
@@ -150,6 +154,11 @@ def run_case(ctx, rng, pandas, s, S, det, tensors, nonvan, e, relrows, outcome, 
         c0 = SYMS[first_int - 1]
         df[c0] = df[c0].round().astype("int64")
         df = df[[c0] + [c for c in df.columns if c != c0]]
+    if env == "row_labels":
+        # the caller's table carries row labels of its own (sorted by another column, filtered, indexed by volume): rows are rows,
+        # whatever they are called
+        kind = int(rng.integers(0, 4))
+        df.index = ([2, 0, 1], [10, 11, 12], [412.5, 398.25, 371.0], ["v3", "v1", "v2"])[kind]
     want = outcome[(det, gross, ign_rank, ign_res)]
     case = {"system": s, "supplied": [SYMS[n - 1] for n in sorted(S)], "det": det, "gross": gross, "bad": extra_bad,
             "ignore_rank": ign_rank, "ignore_residuals": ign_res, "env": env, "rows": nrows,
@@ -277,6 +286,89 @@ def cli_cases(ctx, rng, exports, by, tmp):
                                   {"system": s, "env": "cli", "det": det, "gross": False, "clause": "decision", "want": want,
                                    "exc": type(r.exception).__name__ if r.exception else None})
     ctx.cov["cli_runs"] = n
+
+
+def label_cases(ctx, rng, pandas, exports, by):
+    """Rows are rows whatever they are called: for every system one determined, consistent table per kind of row label (permuted integers,
+    an offset range, volumes, strings).  No supplied value moves to another row, every component is the invariant tensor's."""
+    for s in fillspec.SYSTEMS:
+        if s == "triclinic":
+            continue
+        e = exports[s]
+        tensors = [[float(Fraction(x[0], x[1])) for x in t] for t in e["tensors"]]
+        cand = by.get((s, True), [])
+        if not cand:
+            continue
+        S = min(cand, key=len)
+        for labels in ([2, 0, 1], [10, 11, 12], [412.5, 398.25, 371.0], ["v3", "v1", "v2"]):
+            df = pandas.DataFrame({SYMS[n - 1]: [t[n - 1] for t in tensors] for n in sorted(S)})
+            df.index = labels
+            case = {"system": s, "clause": "row_labels", "labels": [str(x) for x in labels], "supplied": [SYMS[n - 1] for n in sorted(S)]}
+            ctx.count(case)
+            got, out = call_fill(df.copy(), s)
+            sig = {"system": s, "env": "row_labels", "det": True, "gross": False}
+            if got != "accept":
+                ctx.violation(f"{s} [row labels {labels}]: a determined, consistent table is refused ({out!r})"[:300], case,
+                              {**sig, "clause": "decision", "want": "accept", "exc": type(out).__name__})
+                continue
+            low = {c.lower(): c for c in out.columns}
+            for n in range(21):
+                want_v = [t[n] for t in tensors]
+                c = low.get(SYMS[n])
+                if all(v == 0 for v in want_v):
+                    continue
+                if c is None or len(out) != 3 or not numpy.allclose(out[c].to_numpy(dtype=float), want_v, rtol=0, atol=1e-7):
+                    ctx.violation(f"{s} [row labels {labels}]: component {SYMS[n]} = {None if c is None else out[c].tolist()}, row by row the "
+                                  f"invariant tensors have {want_v}", case, {**sig, "clause": "supplied_moved" if (n + 1) in S else "value"})
+                    break
+
+
+def settings_cases(ctx, rng, exports, by, outcome):
+    """The same decisions through the path `cij run` takes: the symmetry group of the settings (system, ignore_rank,
+    ignore_residuals - every combination of the two flags, also set to DIFFERENT values) handed to
+    cij.io.traditional.elast_dat.apply_symetry_on_elast_data together with a parsed static table."""
+    from collections import OrderedDict
+    from cij.io.traditional.elast_dat import ElastData, ElastVolumeData, apply_symetry_on_elast_data
+    from cij.util import c_
+    systems = [x for x in fillspec.SYSTEMS if x != "triclinic"]
+    for s in [systems[int(i)] for i in rng.permutation(len(systems))[:4]]:
+        e = exports[s]
+        tensors = [[Fraction(x[0], x[1]) for x in t] for t in e["tensors"]]
+        for det, gross in ((False, False), (True, True), (True, False)):
+            cand = [S for S in by.get((s, det), []) if S and (not gross or len(set(range(1, 22)) - set(S)) > 0)]
+            if not cand:
+                continue
+            S = cand[int(rng.integers(0, len(cand)))]
+            bad = int(rng.choice(sorted(set(range(1, 22)) - set(S)))) if gross else None
+            for ign_rank in (False, True):
+                for ign_res in (False, True):
+                    want = outcome[(det, gross, ign_rank, ign_res)]
+                    vols = []
+                    for i, t in enumerate(tensors):
+                        comp = OrderedDict((c_(SYMS[n - 1][1:]), float(t[n - 1])) for n in sorted(S))
+                        if bad is not None:
+                            comp[c_(SYMS[bad - 1][1:])] = float(t[bad - 1]) + 50.0
+                        vols.append(ElastVolumeData(100.0 - 5 * i, comp))
+                    data = ElastData(100.0, 3, 50.0, vols, [])
+                    sym = {"system": s}
+                    # a flag left out of the settings is the default (false)
+                    if ign_rank or rng.random() < 0.5:
+                        sym["ignore_rank"] = ign_rank
+                    if ign_res or rng.random() < 0.5:
+                        sym["ignore_residuals"] = ign_res
+                    case = {"system": s, "path": "settings", "det": det, "gross": gross, "symmetry_settings": dict(sym),
+                            "supplied": [SYMS[n - 1] for n in sorted(S)]}
+                    ctx.count(case)
+                    try:
+                        apply_symetry_on_elast_data(data, sym)
+                        got, exc = "accept", None
+                    except BaseException as ex:                                       # noqa: BLE001
+                        got, exc = "raise", ex
+                    if got != want:
+                        ctx.violation(f"{s} [settings path] det={det} gross={gross} symmetry settings {sym}: expected {want}, "
+                                      f"apply_symetry_on_elast_data did {got} ({exc!r})"[:400], case,
+                                      {"system": s, "env": "settings", "det": det, "gross": gross, "clause": "decision", "want": want,
+                                       "exc": type(exc).__name__ if exc is not None else None})
 
 
 def clause_cases(ctx, rng, pandas, exports, by, outcome):
